@@ -559,6 +559,40 @@ func checkHeapAdapter(c *Ctx, p *core.Prog) {
 	c.R.Check(okPush, "R20.2", "pqHeap.Push reports the pushed element with the index of the cell it is appended to", p.Pos(push.Pos()),
 		"setIndex(x, len(h.a)) before append(h.a, x), under the nil guard", why)
 
+	// R20.14: an element that leaves the queue is told so. container/heap moves the element to pop or remove into the last cell
+	// with Swap - which reports that cell's index to it - and then calls Pop to cut the cell off: Pop reports a negative index
+	// to the element it returns (under the nil guard), as the example in the container/heap documentation does. Otherwise the
+	// last thing the element heard is the index of a cell that the next Push hands to another element, and Fix/Remove through
+	// that index hit the wrong element.
+	if pop := lookup(types.NewPointer(heapT), "Pop"); pop != nil && len(pop.Blocks) > 0 {
+		calls = setIndexCalls(pop, 0)
+		okPop, whyPop := false, "Pop never calls the index callback: the element that leaves keeps the index of the last cell"
+		for _, sc := range calls {
+			k, isK := core.ConstInt(sc.idx)
+			switch {
+			case !sc.guarded:
+				okPop, whyPop = false, "setIndex is called without the nil guard"
+			case !isK || k >= 0:
+				whyPop = "the index reported by Pop is not a negative constant"
+			default:
+				// the value is the element that is returned
+				ret := false
+				for _, b := range pop.Blocks {
+					if r, isRet := b.Instrs[len(b.Instrs)-1].(*ssa.Return); isRet && len(r.Results) == 1 && core.Unspill(r.Results[0]) == core.Unspill(sc.val) {
+						ret = true
+					}
+				}
+				if ret {
+					okPop, whyPop = true, "setIndex(x, -1) for the element that is returned, under the nil guard"
+				} else {
+					whyPop = "the element told a negative index is not the one Pop returns"
+				}
+			}
+		}
+		c.R.Check(okPop, "R20.14", "pqHeap.Pop tells the element that leaves the queue that it is no longer queued", p.Pos(pop.Pos()), whyPop,
+			whyPop+": after Push a, Push b, Pop (a), Push c the element a was last told index 1, which is c's cell - Remove(a.index) removes c")
+	}
+
 	// R20.3 delegation
 	for name, target := range map[string]string{"Push": "container/heap.Push", "Pop": "container/heap.Pop", "Fix": "container/heap.Fix", "Remove": "container/heap.Remove"} {
 		fn := p.Func(pq, "(*Queue)."+name)
